@@ -4,7 +4,7 @@
     YAML cache, package pickle, tree database; MemoSound + DiskSound; coverage of every action and
     negated-reachability (vacuity) configs.
 (B) Histories = counterexamples of the weakened models (forgotten touch propagation, memo key
-    without tools / sandbox, tool diff of an `inherit: false` dependency naming the ambient tools,
+    without tools / sandbox / touched-but-unset variables and tools, tool diff of an `inherit: false` dependency naming the ambient tools,
     sharing by result id that ignores metaEnvironment, cache key without -D defines / optional
     include / script include / sandbox flag, YAML cache on mtime only) + TLC -simulate walks.
     Each history becomes a REAL project (shared `lib` reached from two parents under different
@@ -40,7 +40,7 @@ RUNNER = os.path.join(HERE, "c04_runner.py")
 WORKERS = int(os.environ.get("VF_WORKERS", "16") or 16)
 REQ_TIMEOUT = 1800          # per runner request; the machine may be heavily loaded
 
-WEAK = ["NoTouchOnHit", "MemoIgnoresTools", "MemoIgnoresSandbox", "DiffNamesAmbientTools", "ByIdIgnoresMeta", "KeyIgnoresDefines",
+WEAK = ["NoTouchOnHit", "MemoIgnoresTools", "MemoIgnoresSandbox", "MemoIgnoresUnsetTouched", "DiffNamesAmbientTools", "ByIdIgnoresMeta", "KeyIgnoresDefines",
         "KeyIgnoresInclude", "KeyIgnoresBinary", "KeyIgnoresSandbox", "YamlMtimeOnly"]
 REACH = ["ReachPropagatedMiss", "ReachPickleHitAfterReread", "ReachYamlMixed", "ReachTreeHitPickleMiss",
          "ReachHitAcrossParents", "ReachRequeryMemo"]
@@ -68,7 +68,8 @@ def render(c, real):
     """c: content of specs/PkgMemo.tla (file -> tuple); real: realisation choices. -> relpath -> text|None"""
     f = {"config.yaml": projgen.CONFIG}
     f["default.yaml"] = ('environment:\n  A: "%d"\n  ZD: "d"\nrequire: [req]\ninclude: [user]\n' % c["default"][0])
-    f["req.yaml"] = 'environment:\n  B: "%d"\n' % c["req"][0]
+    # req = 2: B is not set at all (touched-but-unset on the path that does not set it)
+    f["req.yaml"] = 'environment:\n  ZR: "r"\n' + ('  B: "%d"\n' % c["req"][0] if c["req"][0] != 2 else "")
     if c["user"]:
         b, s = c["user"]
         t = 'environment:\n  B: "%d"\n' % b
@@ -85,10 +86,10 @@ def render(c, real):
     lv = c["lib"][0]
     if lv == 0:
         guard = cond("$(eq,${A},1)", '          "${A}" == "1"', real)
-        value, var, tools = "b${B}", "A", '  - name: cc\n    if: "$(eq,${A},0)"\n'
+        value, var, tools = "b${B:-u}", "A", '  - name: cc\n    if: "$(and,$(eq,${A},0),$(is-tool-defined,cc))"\n'
     else:
-        guard = cond("$(eq,${B},1)", '          "${B}" == "1"', real)
-        value, var, tools = "a${A}", "B", "  - cc\n"
+        guard = cond("$(eq,${B:-u},1)", '          "${B:-u}" == "1"', real)
+        value, var, tools = "a${A}", "B", '  - name: cc\n    if: "$(is-tool-defined,cc)"\n'
     f["recipes/lib.yaml"] = (
         'inherit: [cls]\n'
         'checkoutSCM:\n  scm: url\n  url: "http://example.invalid/src/lib.tgz"\n'
@@ -105,12 +106,15 @@ def render(c, real):
     tv, ttool, tsb, tld = c["top"]
     flip = "B" if tv == 0 else "A"
     ld = "      - name: tq\n        use: [tools]\n        forward: true\n"
+    t1 = "" if ttool == 3 else "      - name: tp-1\n        use: [tools]\n        forward: true\n"   # 3: no cc below top-1
+    t2 = 2 if ttool == 3 else ttool
+    bdef = ":-0" if flip == "B" else ""
     f["recipes/top.yaml"] = (
         'root: true\n'
         'multiPackage:\n'
         '  "1":\n'
         '    depends:\n'
-        '      - name: tp-1\n        use: [tools]\n        forward: true\n'
+        '%s'
         '%s'
         '      - lib\n      - mid\n      - box\n      - tag\n'
         '    buildScript: |\n      echo top-1\n    packageScript: |\n      echo pkg-top-1\n'
@@ -118,11 +122,11 @@ def render(c, real):
         '    depends:\n'
         '      - name: tp-%d\n        use: [tools]\n        forward: true\n'
         '%s%s'
-        '      - environment:\n          %s: "$(if-then-else,$(eq,${%s},1),0,1)"\n        depends: [lib, mid, tag]\n'
+        '      - environment:\n          %s: "$(if-then-else,$(eq,${%s%s},1),0,1)"\n        depends: [lib, mid, tag]\n'
         '      - box\n'
         '    buildScript: |\n      echo top-2\n    packageScript: |\n      echo pkg-top-2\n'
-        % (ld if tld == 1 else "", ttool, ld if tld == 2 else "",
-           "      - name: sbx\n        use: [sandbox]\n        forward: true\n" if tsb else "", flip, flip))
+        % (t1, ld if tld == 1 else "", t2, ld if tld == 2 else "",
+           "      - name: sbx\n        use: [sandbox]\n        forward: true\n" if tsb else "", flip, flip, bdef))
     f["recipes/tp.yaml"] = (
         'multiPackage:\n'
         '  "1":\n    packageScript: |\n      echo tp-1\n    provideTools:\n      cc:\n        path: "bin1"\n'
@@ -136,8 +140,8 @@ def render(c, real):
     f["recipes/box.yaml"] = ('depends:\n  - name: iso\n    inherit: false\n'
                              'buildScript: |\n  echo box\npackageScript: |\n  echo pkg-box\n')
     f["recipes/iso.yaml"] = 'packageScript: |\n  echo iso\n'
-    f["recipes/tag.yaml"] = ('metaEnvironment:\n  FLAVOUR: "${B}"\n'
-                             'depends:\n  - name: extra\n    use: []\n    if: "${B}"\n'
+    f["recipes/tag.yaml"] = ('metaEnvironment:\n  FLAVOUR: "${B:-u}"\n'
+                             'depends:\n  - name: extra\n    use: []\n    if: "${B:-0}"\n'
                              'buildScript: |\n  echo tag\npackageScript: |\n  echo pkg-tag\n')
     return f
 
@@ -533,15 +537,25 @@ def replay_task(arg):
 
 
 def select(hists, n, rng, need=None):
-    seen, out = set(), []
+    """n distinct histories, spread over the different shapes (action + file sequences) first"""
+    seen, groups = set(), {}
     for h in hists:
         k = json.dumps(h, sort_keys=True)
         if k in seen or (need and not need(h)):
             continue
         seen.add(k)
-        out.append(h)
-    rng.shuffle(out)
-    return out[:n]
+        shape = tuple((e["a"], e.get("f"), e.get("keep")) for e in h if e["a"] not in ("Init", "End", "Invoke"))
+        groups.setdefault(shape, []).append(h)
+    keys = sorted(groups, key=repr)
+    rng.shuffle(keys)
+    for k in keys:
+        rng.shuffle(groups[k])
+    out = []
+    while len(out) < n and any(groups.values()):
+        for k in keys:
+            if groups[k] and len(out) < n:
+                out.append(groups[k].pop())
+    return out
 
 
 def replay_file(path):
@@ -561,7 +575,7 @@ def main():
     rep = evidence.Report(PROP, a.tier, a.seed)
     quick = a.tier == "quick"
     rng = random.Random(a.seed)
-    rep.rule = ("behaviour = edit / command line / cache-removal / invocation history from TLC (counterexamples of 10 "
+    rep.rule = ("behaviour = edit / command line / cache-removal / invocation history from TLC (counterexamples of 11 "
                 "weakened mechanism models + -simulate walks) replayed on a generated real project; every query is "
                 "answered warm (+2 queries in the same process), cold, cold+pkgck and cold without any in-memory reuse and "
                 "the full API dumps are compared; non-trivial = distinct (edit kinds since the last query, pickle "
